@@ -456,6 +456,42 @@ func c05Headers(c *Ctx) {
 				}
 			}
 		})
+		// the comparison may sit in an unexported predicate (isRelayType(mt)) called with the type just read
+		allInstrs(f, func(in ssa.Instruction) {
+			cl, ok := in.(*ssa.Call)
+			if !ok {
+				return
+			}
+			g := cl.Call.StaticCallee()
+			if g == nil || g.Blocks == nil || !inModule(g) || token.IsExported(g.Name()) || len(cl.Call.Args) != len(g.Params) {
+				return
+			}
+			allInstrs(g, func(i2 ssa.Instruction) {
+				bo, ok := i2.(*ssa.BinOp)
+				if !ok || (bo.Op != token.EQL && bo.Op != token.NEQ) {
+					return
+				}
+				k, isK := intConst(bo.Y)
+				x := bo.X
+				if cv, isCv := x.(*ssa.Convert); isCv {
+					x = cv.X
+				}
+				prm, isP := x.(*ssa.Parameter)
+				if !isK || !isP {
+					return
+				}
+				for i, p := range g.Params {
+					if p == prm && strings.Contains(sx.Of(cl.Call.Args[i]).String(), "Read8]") {
+						if k == 12 {
+							got12 = true
+						}
+						if k == 13 {
+							got13 = true
+						}
+					}
+				}
+			})
+		})
 		r.Check(got12 && got13, "C05-K4", key(want), c.P.pos(f.Pos()), "message type compared with 12 and 13", "the message-type guard does not mention both relay types")
 	}
 	// dispatch
